@@ -261,6 +261,27 @@ class Scratch:
                 rest = LINE_COMMENT_RE.sub("", body[st_end:i2]).strip()
                 stmts.append("for _verif_once in 0..1 {\n" + rest + "\n}" if rx.get("wrap_loop") else rest)
                 continue
+            if isinstance(rx, dict) and "rest_of_fn_after" in rx:
+                # everything in the function after the statement that begins at the unique match
+                # of rx["rest_of_fn_after"] (the tail expression included).  rx["abstract"]: code
+                # regions (brace-matched blocks opened at the unique match of `open`) whose body
+                # is replaced by `body` - an abstraction of that region, recorded in the overlay log
+                ms = list(re.finditer(rx["rest_of_fn_after"], body, re.S))
+                if len(ms) != 1:
+                    raise AnchorLost(f"slice anchor /{rx['rest_of_fn_after']}/ matched {len(ms)} times in {sl['fn_anchor']}")
+                rest = body[end_of_statement(body, ms[0].start()):len(body) - 1]
+                for ab in rx.get("abstract", []):
+                    ms2 = list(re.finditer(ab["open"], rest, re.S))
+                    if len(ms2) != 1:
+                        raise AnchorLost(f"slice region /{ab['open']}/ matched {len(ms2)} times in {sl['fn_anchor']}")
+                    bo2 = ms2[0].end() - 1  # `open` ends with the region's opening brace
+                    if rest[bo2] != "{":
+                        raise AnchorLost(f"slice region /{ab['open']}/ does not end at an opening brace")
+                    be2 = match_brace(rest, bo2)
+                    self.overlay_log.append(f"{sl['file']}: K-slice `{sl['name']}`: region /{ab['open']}/ ({rest[bo2:be2].count(chr(10))} lines) abstracted to `{ab['body']}`")
+                    rest = rest[:bo2] + "{ " + ab["body"] + " }" + rest[be2:]
+                stmts.append(LINE_COMMENT_RE.sub("", rest).strip())
+                continue
             if isinstance(rx, dict):
                 # brace-matched block (e.g. an `if cond { .. }` statement) starting at the unique match of rx["block"]
                 ms = list(re.finditer(rx["block"], body, re.S))
